@@ -110,3 +110,6 @@ package generator
 //@   ensures {C18} err == nil && output ==> $out.n == old($out.n) + 1 && $out.data[old($out.n)] == string(r) + "\n"
 //@   ensures {C18} err == nil && !output ==> $out.n == old($out.n)
 //@   ensures {C01,C15} err != nil ==> r == nil
+//@
+//@ func NewGenerator(code) (g)
+//@   ensures {C15,C18} fresh(g) && g.code == code
